@@ -81,6 +81,33 @@ def r2(ctx):
                 if base in ('replace', 'insert', 'assign') and 'obj' in cv and fn.key(cv['obj']) == strkey and cv.get('args') and \
                         fn.ref_decl(cv['args'][0]) == cur:
                     stores.append(c2)
+            # ... or through a helper that is handed the string and the cursor and rewrites the string at that position
+            for c2 in fn.all('CallExpr'):
+                cv = fn.nodes[c2]
+                if not cv.get('repo') or len(cv.get('args', [])) < 2:
+                    continue
+                ak = [fn.key(a) for a in cv['args']]
+                if not (('&' + strkey) in ak or strkey in ak) or not any(fn.ref_decl(a) == cur for a in cv['args']):
+                    continue
+                si = [i for i, k in enumerate(ak) if k in ('&' + strkey, strkey)][0]
+                ci = [i for i, a in enumerate(cv['args']) if fn.ref_decl(a) == cur][0]
+                for g in fb.functions:
+                    if g.name != cv.get('callee') or g.sig != cv.get('sig') or not g.blocks or len(g.params) <= max(si, ci):
+                        continue
+                    sp_, cp_ = g.params[si]['name'], g.params[ci]['decl']
+                    hit = False
+                    for x, gv in g.nodes.items():
+                        if gv['k'] == 'CXXMemberCallExpr' and (gv.get('callee') or '').split('::')[-1] in ('replace', 'insert', 'assign') and \
+                                'obj' in gv and g.key(gv['obj']).lstrip('*(').rstrip(')') == sp_ and gv.get('args') and g.ref_decl(gv['args'][0]) == cp_:
+                            hit = True
+                        if gv['k'] == 'CXXOperatorCallExpr' and gv.get('op') == '[]' and len(gv.get('args', [])) == 2 and \
+                                g.key(gv['args'][0]).lstrip('*(').rstrip(')') == sp_ and g.ref_decl(gv['args'][1]) == cp_:
+                            par_ = g.nodes.get(g.parent(x), {})
+                            if par_.get('k') == 'BinaryOperator' and par_.get('op') == '=' and g.strip(par_['lhs']) == x:
+                                hit = True
+                    if hit:
+                        stores.append(c2)
+                    break
             if not stores:
                 continue
             ctx.touch(fn)
@@ -497,14 +524,22 @@ def r13(ctx):
              'length', minimum=1)
     import re
     fb = ctx.fb
-    fn = fb.fn('ebusd::RequestImpl::add')
-    ctx.touch(fn)
     n = 0
-    for c in fn.all('CXXMemberCallExpr'):
+    seen = set()
+    for fn in fb.functions:
+      if not fn.relfile.startswith('src/ebusd/request.') or not fn.blocks or (fn.name, fn.sig) in seen:
+        continue
+      seen.add((fn.name, fn.sig))
+      for c in fn.all('CXXMemberCallExpr'):
         v = fn.nodes[c]
-        if not (v.get('callee') or '').endswith('::erase') or len(v.get('args', [])) != 2 or fn.val(v['args'][1]) is None:
+        cal_ = (v.get('callee') or '').split('::')[-1]
+        if cal_ == 'erase' and len(v.get('args', [])) == 2 and fn.val(v['args'][1]) is not None:
+            count = fn.val(v['args'][1])
+        elif cal_ == 'replace' and len(v.get('args', [])) == 4 and fn.val(v['args'][1]) is not None and fn.val(v['args'][2]) is not None:
+            count = fn.val(v['args'][1]) - fn.val(v['args'][2])    # characters removed: the "%" stands for the decoded byte
+        else:
             continue
-        count = fn.val(v['args'][1])
+        ctx.touch(fn)
         guards = [(k, p) for k, p in ((a[0], a[1]) for a in fn.atoms(c)) if k.startswith('(sscanf(')]
         if not guards:
             continue
